@@ -748,6 +748,7 @@ package lisp
 //@ global-writer lisp.userBuiltins <- RegisterDefaultBuiltin : host registration API (startup), not reachable from evaluation
 //@ global-writer lisp.userMacros <- RegisterDefaultMacro : host registration API (startup), not reachable from evaluation
 //@ global-writer lisp.userSpecialOps <- RegisterDefaultSpecialOp : host registration API (startup), not reachable from evaluation
+//@ global-writer lisp/lisplib/libschema.symcounter <- GenSymbol : process-wide ATOMIC counter that names anonymous validators (deliberate, issue #364: NewValidator has no runtime to hang it off); the name is observable only as the frame name of a validator invoked through funcall
 //@ frame callers(RegisterDefaultBuiltin) subset { } property C09 C10
 //@ frame callers(RegisterDefaultMacro) subset { } property C09 C10
 //@ frame callers(RegisterDefaultSpecialOp) subset { } property C09 C10
